@@ -491,6 +491,17 @@ def formatter_level(ctx, strings):
             if (rt != s or ra != s) and not (name == "html5" and bare_positions(s)):
                 ctx.fail(case, "Tag.decode(formatter=%r): attribute value / text are not read back as the original" % name,
                          {"written": got[4], "text": rt, "attribute": ra}, s, tag="decode-readback")
+        # the same for a multi-valued (list) attribute value: every token goes through the substitution too
+        if name in ("minimal", "html", "html5") and s and not any(ch.isspace() for ch in s):
+            p["class"] = [s, "k"]
+            w = exc(lambda: p.decode(formatter=f))
+            del p["class"]
+            back = exc(BeautifulSoup, w, "html.parser") if isinstance(w, str) and not w.startswith("EXC:") else w
+            el = back.find("pre") if not isinstance(back, str) else None
+            rc = el.get("class") if el is not None else None
+            if rc != [s, "k"] and not (name == "html5" and bare_positions(s)):
+                ctx.fail(case, "Tag.decode(formatter=%r): a token of a multi-valued attribute is not read back as the original" % name,
+                         {"written": w, "class": rc}, [s, "k"], tag="decode-readback-list")
         # the registered names mean the documented functions (independent of the model)
         if name in ("minimal", "html", "html5"):
             ref = {"minimal": ES.substitute_xml, "html": ES.substitute_html, "html5": ES.substitute_html5}[name]
